@@ -74,6 +74,7 @@ func cmdVerify(args []string) {
 	timeout := fs.Int("timeout", 10, "solver timeout (s)")
 	dump := fs.String("dump", "", "dump scripts of failing obligations to this dir")
 	verbose := fs.Bool("v", false, "verbose")
+	useFindings := fs.Bool("findings", false, "apply known findings regions to callee clauses")
 	show := fs.Bool("show", false, "show path condition and goal of failing obligations")
 	fs.Parse(args)
 	t0 := time.Now()
@@ -85,6 +86,10 @@ func cmdVerify(args []string) {
 	fmt.Printf("loaded in %.1fs: %d funcs, %d contracts, %d spec funs\n", time.Since(t0).Seconds(), len(prog.Funcs), len(prog.Contracts), len(prog.Specs))
 	scratch, _ := os.MkdirTemp("", "govc")
 	defer os.RemoveAll(scratch)
+	ff, _ := loadFindings("/verif/known_findings.json")
+	if *useFindings && ff != nil {
+		attachRegions(prog, ff)
+	}
 	for _, key := range fs.Args() {
 		var keys []string
 		if strings.HasSuffix(key, "*") {
@@ -104,6 +109,9 @@ func cmdVerify(args []string) {
 				continue
 			}
 			x := NewExec(prog, fn, *prop)
+			if *useFindings && ff != nil {
+				x.findings = ff.Findings
+			}
 			r := x.Verify()
 			if r.Aborted != "" {
 				fmt.Printf("%s: ABORTED: %s\n", key, r.Aborted)
@@ -117,6 +125,7 @@ func cmdVerify(args []string) {
 						fmt.Printf("       pc: %s\n", o.x.tb.Show(a))
 					}
 					fmt.Printf("       goal: %s\n", o.x.tb.Show(o.Goal))
+					dbgN++; os.WriteFile(fmt.Sprintf("/tmp/dbg_pc_%d.smt2", dbgN), []byte(o.x.tb.Script(o.Asserts, nil, false)), 0644)
 				}
 				if o.Result.Status == "unsat" {
 					ok++
@@ -241,3 +250,4 @@ func cmdSigs(args []string) {
 		fmt.Printf("%s|func %s%s(%s)|%s\n", k, recv, fn.Name(), strings.Join(ps, ", "), strings.Join(rs, ","))
 	}
 }
+var dbgN int
